@@ -344,3 +344,36 @@ class Report:
             print(f"VIOLATION property={self.id} replay={p.relative_to(VERIF)}{suffix}")
         sys.stdout.flush()
         return 1 if self.violations else 0
+
+
+def run_codec_grouped(jobs):
+    """jobs: list of (schema_wire, struct, item dict).  Groups items by (schema, struct) so the
+    driver parses each schema once.  Returns one answer per job, in order."""
+    groups = {}
+    order = []
+    for idx, (wire, struct, item) in enumerate(jobs):
+        key = (id(wire), struct)
+        if key not in groups:
+            groups[key] = {"op": "codec", "schema": wire, "struct": struct, "items": [], "_idx": []}
+            order.append(key)
+        g = groups[key]
+        g["items"].append(item)
+        g["_idx"].append(idx)
+    cases = []
+    idxs = []
+    for key in order:
+        g = groups[key]
+        # split very large groups so chunks stay balanced
+        for k in range(0, len(g["items"]), 64):
+            cases.append({"op": "codec", "schema": g["schema"], "struct": g["struct"], "items": g["items"][k:k + 64]})
+            idxs.append(g["_idx"][k:k + 64])
+    res = run_driver_parallel(cases, chunk=max(1, len(cases) // 64 + 1))
+    out = [None] * len(jobs)
+    for r, ix in zip(res, idxs):
+        if "items" not in r:
+            for i in ix:
+                out[i] = r
+        else:
+            for i, a in zip(ix, r["items"]):
+                out[i] = a
+    return out
